@@ -440,6 +440,26 @@ def rule_c14(ctx):
                 ctx.reviewed_or_violation("R14.5", s.key, "following a redirect calls %s, which is documented to panic: %s "
                                           "(a bad Location must be an error, never a panic)" % (s.kind[8:], whyf), loc=s.loc)
 
+    # who writes the URI override
+    from .effects import field_accesses
+    effb = _find_effective_uri(prog)
+    if effb is not None:
+        fname = None
+        for blk in effb.blocks:
+            for st_ in blk["stmts"]:
+                for pl in ([st_["rv"].get("place")] if st_["k"] == "assign" and st_["rv"].get("place") else []):
+                    for e in pl.get("proj", []):
+                        if e.get("k") == "field" and "Option<" in e.get("ty", "") and "Uri" in e.get("ty", "") and fname is None:
+                            fname = e["name"]
+        if ctx.require(fname, "R14.3", "override-field", "Option<Uri> override field read by the effective URI accessor"):
+            acc = field_accesses(prog, "AmendedRequest<", fname)
+            writers = sorted(set(b.short for b, i, k, d in acc if k != "read"))
+            wcallers = sorted(set(b.short for b in prog.nonderived_bodies() for _, t in b.calls()
+                                  if len(writers) == 1 and short(callee_path(t) or "") == writers[0]))
+            ctx.check(len(writers) == 1 and wcallers == ["Flow::<B, Redirect>::as_new_flow"], "R14.3", "override-writers",
+                      "the URI override is written by one setter only, called only while following a redirect (nothing resets or "
+                      "rewrites the current URI between hops)", detail=["writers %s" % writers, "callers %s" % wcallers])
+
     # R14.2 / R14.4: effective URI accessor table and its consumers
     eff = _find_effective_uri(prog)
     if not ctx.require(eff, "R14.4", "effective-uri", "override-aware URI accessor (reads an Option<Uri> field, falls back to the request URI)"):
@@ -599,6 +619,40 @@ def rule_c13_filter(ctx):
     ctx.ok(R, "filter-present", "the inherited part of the effective iterator is filtered", loc=body_loc(hd), nontrivial=False)
 
 
-C13_RULES = [rule_c13, rule_c13_filter]
+def rule_c13_list_append_only(ctx):
+    """R13.6: once a header name is on the suppression list it stays there: the list is only appended to (by the
+    un-setter the redirect code calls); nothing removes, truncates or replaces it -- e.g. not when the caller adds a
+    header of the same name to the new request"""
+    R = "R13.6"
+    prog = ctx.prog
+    from .effects import field_accesses
+    hd = prog.find("AmendedRequest::<Body>::headers")
+    if not ctx.require(hd, R, "entry", "effective header iterator"):
+        return
+    # the list the suppression predicate reads: the ArrayVec field mentioned in the filter closure
+    name = None
+    for c in prog.closures_of(hd):
+        for blk in c.blocks:
+            for st_ in blk["stmts"]:
+                if st_["k"] == "assign" and st_["rv"]["k"] == "ref":
+                    for e in st_["rv"]["place"].get("proj", []):
+                        if e.get("k") == "field" and "ArrayVec<" in e.get("ty", "") and name is None:
+                            name = e["name"]
+    if not ctx.require(name, R, "list-field", "list read by the suppression predicate"):
+        return
+    acc = field_accesses(prog, "AmendedRequest<", name)
+    pushers = sorted(set(b.short for b, i, k, d in acc if k == "mut-borrow:ArrayVec::<T, N>::push"))
+    bad = ["%s: %s%s" % (b.short, k, (" (" + d + ")") if d else "") for b, i, k, d in acc if k not in ("read", "mut-borrow:ArrayVec::<T, N>::push")]
+    ctx.check(len(pushers) == 1 and not bad and any(k == "read" for _, _, k, _ in acc), R, "append-only",
+              "the suppression list `%s` is only appended to (by %s) and read by the predicate; nothing removes or replaces an entry" % (
+                  name, ", ".join(pushers)), loc=body_loc(hd), detail=bad[:4] + (["pushers: %s" % pushers] if len(pushers) != 1 else []))
+    # the un-setter is called only by the redirect-following function
+    callers = sorted(set(b.short for b in prog.nonderived_bodies() for _, t in b.calls()
+                         if pushers and short(callee_path(t) or "") == pushers[0]))
+    ctx.check(callers == ["Flow::<B, Redirect>::as_new_flow"], R, "unset-callers", "the un-setter is called only while following a redirect",
+              detail=callers)
+
+
+C13_RULES = [rule_c13, rule_c13_filter, rule_c13_list_append_only]
 C14_RULES = [rule_c14, rule_c14_last_location]
 C15_RULES = [rule_c15_table, rule_c15_detection, rule_c15_status_origin]
